@@ -100,11 +100,14 @@ class UCGEInitialize(UCGInitialize):
         bit_target = self.str_target[self.num_qubits - tree_level]
 
         old_mult, old_controls, target = self._define_mult(children, parent, tree_level)
-        nc, mult = self._simplify(old_mult, tree_level)
-        mult_controls = [x for x in old_controls if x not in nc]
-
         if self.preserve:
+            # the preserved block is taken out of the full multiplexer (r_gate indexes it),
+            # so the multiplexer cannot be simplified first
+            nc, mult, mult_controls = [], old_mult, old_controls
             self._preserve_previous(mult, mult_controls, r_gate, target)
+        else:
+            nc, mult = self._simplify(old_mult, tree_level)
+            mult_controls = [x for x in old_controls if x not in nc]
 
         ucg = self._apply_ucg(mult, mult_controls, target)
         ucg.dont_carry = nc
